@@ -50,7 +50,8 @@ MCKeyChars == [k \in MCKeyNames |->
       [] k = "m" -> <<"m">> [] k = "w" -> <<"w">>
       [] k = "l2" -> <<"l","2">> [] k = "ditems" -> <<"d","i","t","e","m","s">>
       [] k = "p" -> <<"p">> [] k = "q" -> <<"q">> [] k = "zz" -> <<"z","z">>]
-MCEnviron == [n \in {} |-> <<>>]
+\* (one variable, set to a valid value that is falsy in Python; harness/props/cfgmachine.py sets it)
+MCEnviron == [n \in {<<"F", "V">>} |-> <<"0">>]
 
 SubDefault == DefaultCfg(Bind(SubS, PNone), <<"sub">>).cfg
 MCSetCands ==
@@ -230,7 +231,9 @@ GLeaves == <<
     \* a required text field of a subclass with a syntax check of its own
     With(UrlF, [required |-> TRUE, default |-> s(<<"h", "t", "t", "p", ":", "/", "/", "a">>)]),
     \* a map of typed maps
-    With(DictF(StringF, DictF(StringF, With(IntF, [hasmin |-> TRUE, min |-> 0]))), [default |-> DictV(<<>>)]) >>
+    With(DictF(StringF, DictF(StringF, With(IntF, [hasmin |-> TRUE, min |-> 0]))), [default |-> DictV(<<>>)]),
+    \* a field bound to an environment variable whose (valid) value is 0: the variable, not the default
+    With(IntF, [hasmin |-> TRUE, min |-> 0, default |-> IntV(5), env |-> EnvName(<<"F", "V">>)]) >>
 GSubs == <<
     SchemaF(<< <<"x", With(IntF, [default |-> IntV(1), required |-> TRUE])>>, <<"y", With(StringF, [choices |-> << <<"u">>, <<"v">> >>])>> >>),
     [validators |-> <<"x_not_3">>] @@ SchemaF(<< <<"x", With(IntF, [default |-> IntV(1)])>> >>),
@@ -242,7 +245,7 @@ GSubs == <<
     [flagkey |-> "enabled"] @@ SchemaF(<< <<"x", With(IntF, [hasmin |-> TRUE, min |-> 1, hasmax |-> TRUE, max |-> 9, required |-> TRUE, default |-> IntV(2)])>>,
                                           <<"enabled", With(BoolF, [default |-> BoolV(FALSE)]) @@ [flag |-> TRUE]>> >>) >>
 GNodes == GLeaves \o GSubs
-NG == 36
+NG == 37
 ASSUME NG = Len(GNodes)
 GFirst == SchemaF(<< <<"a", With(IntF, [hasmin |-> TRUE, min |-> 1, hasmax |-> TRUE, max |-> 9, default |-> IntV(5)])>>,
                      <<"s", With(StringF, [tcase |-> "lower", stripm |-> "ws", default |-> s(<<"a", "b">>)])>> >>)
@@ -259,7 +262,7 @@ MCFamilyAt2(i) == IF i = 1 THEN GFirst
                   ELSE SchemaF(<< <<"a", GNodes[((i - 2) \div NG) + 1]>>, <<"s", GNodes[((i - 2) % NG) + 1]>> >>)
 \* three keys: a sub-schema, a leaf, anything
 NS3 == 7   \* sub-schema shapes
-NL3 == 29  \* leaf shapes
+NL3 == 30  \* leaf shapes
 ASSUME NS3 = Len(GSubs) /\ NL3 = Len(GLeaves)
 MCFamilyN3 == MCFamilyN2 + NS3 * NL3 * NG
 MCFamilyAt3(i) == IF i <= MCFamilyN2 THEN MCFamilyAt2(i)
